@@ -65,7 +65,7 @@ func (in *Interp) checkStr(args []Value, i int, fname string) string {
 	switch x := arg(args, i).(type) {
 	case string:
 		return x
-	case float64:
+	case float64, AmbZero:
 		s, _ := in.tostr(x)
 		return s
 	}
@@ -86,7 +86,7 @@ func (in *Interp) ToStringMeta(v Value) Value {
 			return "true"
 		}
 		return "false"
-	case float64, string:
+	case float64, string, AmbZero:
 		s, _ := in.tostr(x)
 		return s
 	}
